@@ -70,3 +70,8 @@ func VerifC11_IsBatchReady() {
 		verifrt.Assert(!all, "C07.readiness.noSpuriousWait")
 	}
 }
+
+// C07: the readiness predicate never keeps waiting once everything it names holds — in particular it counts batch
+// labels against the planned size the label patcher works to, not against a larger number nobody will ever label
+// (the same obligations as VerifC11_IsBatchReady, C07.readiness.noSpuriousWait).
+func VerifC07_ReadinessNeverWaitsForMoreThanPlanned() { VerifC11_IsBatchReady() }
